@@ -2,3 +2,4 @@ import ChiProofs.RealInst
 import ChiProofs.Props.C04
 import ChiProofs.Props.C01
 import ChiProofs.Props.C08
+import ChiProofs.Props.C02
